@@ -84,7 +84,7 @@ def KOk (kbuf : List Byte) (shut : Bool) (cap : Nat) (r : RRes × List Byte) : P
   | .data bs => bs ≠ [] ∧ bs ++ r.2 = kbuf ∧ bs.length ≤ cap
   | .eof => kbuf = [] ∧ shut = true ∧ r.2 = kbuf
   | .eagain => r.2 = kbuf
-  | .err e => e ≠ 0 ∧ r.2 = kbuf
+  | .err e => (e ≠ 0 ∧ e < 4095) ∧ r.2 = kbuf
 
 theorem kfull_ok (kbuf : List Byte) (shut : Bool) (cap k : Nat) : KOk kbuf shut cap (kfull kbuf shut cap k) := by
   unfold kfull
@@ -111,7 +111,7 @@ theorem kread_ok (kbuf : List Byte) (shut : Bool) (cap : Nat) (o : Option Outcom
     | ok k => exact kfull_ok _ _ _ _
     | eagain => simp [KOk]
     | eintr => simp [KOk]
-    | err e => by_cases he : e = 11 ∨ e = 4 ∨ e = 0 <;> simp [he, KOk]; omega
+    | err e => by_cases he : e = 11 ∨ e = 4 ∨ e = 0 ∨ 4095 ≤ e <;> simp [he, KOk]; omega
 
 
 theorem coupled_callReadCb (u : User) (b : Bool) (s : St) (n : Int) (buf : Option Nat) (bytes : List Byte)
@@ -146,8 +146,7 @@ theorem coupled_afterRead (u : User) (s : St) (id sz : Nat) (kbuf0 : List Byte) 
     simp only [KOk] at hk
     simp only [afterRead]
     have hneg : (-(e : Int)) < 0 := by omega
-    have hne : ¬ (-(e : Int)) = -4095 := by
-      intro hh; sorry
+    have hne : ¬ (-(e : Int)) = -4095 := by omega
     have hc : Coupled true (callReadCb u { s with readable := false, writable := false } (-(e : Int)) (some id) []) := by
       apply coupled_callReadCb
       constructor <;> simp_all [emit, mon_append, Mon.step, quieting, UV_ENOBUFS, UV_EOF]
@@ -186,5 +185,156 @@ theorem coupled_readRound (u : User) (s : St) (h : Coupled false s) (hr : s.read
     · simpa [emit] using hr
     · exact hz
     · simpa [emit] using kread_ok s.kbuf s.peerShut (u.allocS s.nAlloc) (skipEintr s.oracle).2.1
+
+
+theorem coupled_readLoop (u : User) : ∀ (count : Nat) (s : St), Coupled false s → Coupled false (readLoop u count s) := by
+  intro count
+  induction count with
+  | zero => intro s h; simpa [readLoop] using h
+  | succ c ih =>
+    intro s h
+    unfold readLoop
+    by_cases hc : (!(s.hasCb && s.reading)) = true
+    · simp only [hc, if_true]; exact h
+    · simp only [hc]
+      have hr : s.reading = true := by simp at hc; exact hc.2
+      have h' := coupled_readRound u s h hr
+      simp only [Bool.false_eq_true, if_false]
+      split
+      · exact ih _ h'
+      · exact h'
+
+theorem coupled_uvRead (u : User) (s : St) (h : Coupled false s) : Coupled false (uvRead u s) :=
+  coupled_readLoop u 32 _ h
+
+theorem coupled_streamIo (u : User) (s : St) (ev : PollEv) (h : Coupled false s) : Coupled false (streamIo u s ev) := by
+  unfold streamIo
+  have h1 : Coupled false (if (ev.inn || ev.err || ev.hup) = true then uvRead u s else s) := by
+    split
+    · exact coupled_uvRead u s h
+    · exact h
+  revert h1
+  generalize (if (ev.inn || ev.err || ev.hup) = true then uvRead u s else s) = s1
+  intro h1
+  simp only
+  split
+  · exact h1
+  · split
+    · rename_i hsyn
+      simp only [streamEof]
+      apply coupled_callReadCb
+      obtain ⟨c1, c2, c3, c4, c5, c6, c7, c8⟩ := h1
+      simp at hsyn
+      constructor <;> simp_all [emit, mon_append, Mon.step, quieting, UV_ENOBUFS, UV_EOF]
+    · exact h1
+
+theorem coupled_ioPoll (u : User) (s : St) (ev : PollEv) (h : Coupled false s) : Coupled false (ioPoll u s ev) := by
+  unfold ioPoll
+  simp only
+  repeat' split
+  all_goals first | exact h | exact coupled_streamIo u s _ h
+
+theorem coupled_stepOp (u : User) (s : St) (op : Op) (h : Coupled false s) : Coupled false (stepOp u s op) := by
+  cases op with
+  | start => exact coupled_doOp false s .start h
+  | stop => exact coupled_doOp false s .stop h
+  | close => exact coupled_doOp false s .close h
+  | poll ev reads =>
+    simp only [stepOp, runClosing]
+    have h1 : Coupled false (ioPoll u { s with oracle := reads } ev) := coupled_ioPoll u _ ev h
+    split
+    · obtain ⟨c1, c2, c3, c4, c5, c6, c7, c8⟩ := h1
+      constructor <;> simp_all [emit, mon_append, Mon.step]
+    · exact h1
+  | peerW bytes =>
+    simp only [stepOp]
+    split
+    · exact h
+    · obtain ⟨c1, c2, c3, c4, c5, c6, c7, c8⟩ := h
+      constructor <;> simp_all [emit, mon_append, Mon.step]
+  | peerShut =>
+    simp only [stepOp]
+    obtain ⟨c1, c2, c3, c4, c5, c6, c7, c8⟩ := h
+    constructor <;> simp_all [emit, mon_append, Mon.step]
+
+theorem coupled_exec (u : User) (ops : List Op) : ∀ s, Coupled false s → Coupled false (exec u s ops) := by
+  induction ops with
+  | nil => intro s h; exact h
+  | cons o t ih => intro s h; exact ih _ (coupled_stepOp u s o h)
+
+
+/-! generic facts about the automaton -/
+
+theorem fold_deliv (l : List Ev) : ∀ m : Mon, (l.foldl Mon.step m).deliv = m.deliv ++ delivered l := by
+  induction l with
+  | nil => intro m; simp [delivered]
+  | cons e t ih => intro m; cases e <;> simp [ih, Mon.step, delivered]
+
+theorem fold_sent (l : List Ev) : ∀ m : Mon, (l.foldl Mon.step m).sentB = m.sentB ++ sent l := by
+  induction l with
+  | nil => intro m; simp [sent]
+  | cons e t ih => intro m; cases e <;> simp [ih, Mon.step, sent]
+
+theorem mon_deliv (tr : List Ev) : (mon tr).deliv = delivered tr := by
+  simpa [mon] using fold_deliv tr {}
+
+theorem mon_sent (tr : List Ev) : (mon tr).sentB = sent tr := by
+  simpa [mon] using fold_sent tr {}
+
+theorem fold_shut (l : List Ev) : ∀ m : Mon, (l.foldl Mon.step m).shut = true → m.shut = true ∨ Ev.peerShut ∈ l := by
+  induction l with
+  | nil => intro m h; exact Or.inl h
+  | cons e t ih =>
+    intro m h
+    rcases ih _ h with h1 | h1
+    · cases e <;> simp_all [Mon.step]
+    · exact Or.inr (List.mem_cons_of_mem _ h1)
+
+theorem fold_okPair (l : List Ev) : ∀ m : Mon, (l.foldl Mon.step m).okPair = true → m.okPair = true := by
+  induction l with
+  | nil => intro m h; exact h
+  | cons e t ih =>
+    intro m h
+    have h1 := ih _ h
+    clear h ih
+    cases e <;> simp [Mon.step] at h1 <;> simp_all
+
+theorem fold_okQuiet (l : List Ev) : ∀ m : Mon, (l.foldl Mon.step m).okQuiet = true → m.okQuiet = true := by
+  induction l with
+  | nil => intro m h; exact h
+  | cons e t ih =>
+    intro m h
+    have h1 := ih _ h
+    clear h ih
+    cases e <;> simp [Mon.step] at h1 <;> simp_all
+
+theorem fold_okEof (l : List Ev) : ∀ m : Mon, (l.foldl Mon.step m).okEof = true → m.okEof = true := by
+  induction l with
+  | nil => intro m h; exact h
+  | cons e t ih =>
+    intro m h
+    have h1 := ih _ h
+    clear h ih
+    cases e <;> simp [Mon.step] at h1 <;> simp_all
+
+/-- once quiet, only a successful uv_read_start makes callbacks legal again -/
+theorem fold_quiet (l : List Ev) : ∀ m : Mon, m.quiet = true → (l.foldl Mon.step m).quiet = false →
+    Ev.ret .start 0 ∈ l := by
+  induction l with
+  | nil => intro m h1 h2; simp_all
+  | cons e t ih =>
+    intro m h1 h2
+    by_cases he : e = Ev.ret .start 0
+    · simp [he]
+    · have hq : (m.step e).quiet = true := by
+        cases e with
+        | ret op c =>
+          cases op <;> simp_all [Mon.step]
+        | _ => simp_all [Mon.step]
+      exact List.mem_cons_of_mem _ (ih _ hq h2)
+
+theorem mon_split (pre post : List Ev) (e : Ev) :
+    mon (pre ++ e :: post) = post.foldl Mon.step ((mon pre).step e) := by
+  simp [mon_append]
 
 end UvModel.StreamR
